@@ -13,7 +13,7 @@ structure St where
   u : UState
   ext : List Nat        -- externally deployed (externally owned) contracts
 
-def idx0 : Idx := addPair { md := [(0, [])] } ⟨0, 0, true, false⟩
+def idx0 : Idx := genesisIdx
 
 def ownerFn (ext : List Nat) : Asset → Option Addr
   | .erc ct => if ext.contains ct then some (.ext 1) else some .erc20Mod
